@@ -224,7 +224,11 @@ impl<'a> Eval<'a> {
                     self.note_int(&r);
                     Val::Int(r)
                 }
-                Val::Value(x) => Val::Value(vneg(&x)),
+                Val::Value(x) => {
+                    let r = vneg(&x);
+                    self.note_value(&r);
+                    Val::Value(r)
+                }
                 x => return unsupported(format!("negation of {:?}", tag(&x))),
             },
             GExpr::Concat(a, b) => {
